@@ -166,6 +166,12 @@ def run(ctx):
         for p in range(0, 7):
             insts.append(('UTC', 1389787200 + fr, p))
             insts.append(('UTC', float(rng.randrange(LO, HI)) + fr, p))
+    # instants before the epoch (negative numbers): the fraction belongs to the second BELOW
+    for v in (-1.25, -0.5, -86400.001, -1.0, -0.0004, -0.9996, -0.25, -1e9 - 0.125, -2208988800.5, -0.96, -0.996, -59.9996):
+        for p in range(0, 7):
+            insts.append(('UTC', v, p))
+    for _ in range(400 if ctx.thorough else 60):
+        insts.append(('UTC', rng.uniform(-2.2e9, 0), rng.randrange(0, 7)))
     for _ in range(2000 if ctx.thorough else 300):
         insts.append(('UTC', rng.uniform(LO, HI), rng.randrange(0, 7)))
 
